@@ -29,6 +29,7 @@ type PropSpec struct {
 	MapOrderSym bool
 	MaxSteps    int
 	MaxDepth    int
+	BoundIsViol bool
 	Repeat      int // native replay repetitions (map-order dependent properties)
 	Bounds      []string
 	Assumptions []string
@@ -129,6 +130,15 @@ func nativeReplay(repo, workDir string, harnesses []string, ws []*engine.Witness
 	if err := json.Unmarshal(b, &outs); err != nil {
 		return nil, string(out), err
 	}
+	// a hanging witness ends the test process: replay the remaining witnesses in a new one
+	if len(outs) > 0 && len(outs) < len(ws) && outs[len(outs)-1].Hang {
+		rest, rawRest, err := nativeReplay(repo, workDir+"_r", harnesses, ws[len(outs):], repeat)
+		os.RemoveAll(workDir + "_r")
+		if err == nil {
+			outs = append(outs, rest...)
+		}
+		return outs, string(out) + rawRest, nil
+	}
 	return outs, string(out), nil
 }
 
@@ -140,11 +150,11 @@ func tail(s string, n int) string {
 }
 
 func reproduces(w *engine.Witness, o Outcome) bool {
-	if o.Hang {
-		return true
-	}
 	if strings.HasPrefix(w.Msg, "uncaught panic") {
 		return o.Panic != ""
+	}
+	if strings.HasPrefix(w.Msg, "no result within the work bound") {
+		return o.Hang
 	}
 	// member-wise JSON assertions name the member; symbolic names print differently natively
 	key := func(m string) string {
@@ -230,7 +240,7 @@ func cmdCheck(args []string) int {
 		return 2
 	}
 	known := loadKnown(id)
-	opts := engine.Opts{MaxSteps: spec.MaxSteps, MaxDepth: spec.MaxDepth, MaxLoop: 1 << 20, MapOrderSymbolic: spec.MapOrderSym, WantReach: true, Params: tr.Params, Known: known}
+	opts := engine.Opts{MaxSteps: spec.MaxSteps, MaxDepth: spec.MaxDepth, MaxLoop: 1 << 20, MapOrderSymbolic: spec.MapOrderSym, WantReach: true, Params: tr.Params, Known: known, BoundIsViolation: spec.BoundIsViol}
 	if opts.MaxSteps == 0 {
 		opts.MaxSteps = 5000000
 	}
